@@ -6,6 +6,7 @@ import (
 	"context"
 	"fmt"
 	"path/filepath"
+	"strings"
 	"time"
 
 	time2 "github.com/oxia-db/oxia/common/time"
@@ -32,6 +33,9 @@ func entry(term, off int64) *proto.LogEntry {
 	return &proto.LogEntry{Term: term, Offset: off, Value: b, Timestamp: uint64(1000 + off)}
 }
 
+// donorNotificationsOff: the donor database belongs to a namespace with notifications disabled.
+var donorNotificationsOff bool
+
 // donorChunks builds the snapshot a leader of `term` holding entries 0..upTo would send.
 func donorChunks(dir string, upTo, term int64) ([]*proto.SnapshotChunk, error) {
 	pf, err := kv.NewPebbleKVFactory(&kv.FactoryOptions{DataDir: dir, CacheSizeMB: 1})
@@ -44,9 +48,10 @@ func donorChunks(dir string, upTo, term int64) ([]*proto.SnapshotChunk, error) {
 		return nil, err
 	}
 	defer db.Close()
-	if err := db.UpdateTerm(term, kv.TermOptions{NotificationsEnabled: true}); err != nil {
+	if err := db.UpdateTerm(term, kv.TermOptions{NotificationsEnabled: !donorNotificationsOff}); err != nil {
 		return nil, err
 	}
+	db.EnableNotifications(!donorNotificationsOff)
 	for o := int64(0); o <= upTo; o++ {
 		lev := &proto.LogEntryValue{}
 		_ = lev.UnmarshalVT(entry(term, o).Value)
@@ -596,4 +601,99 @@ func AckDurabilityScenarios(tier string) []sched.Scenario {
 		dev = 4
 	}
 	return []sched.Scenario{{Name: "connection-drop-then-entry-sent-again", Cfg: vsched.Config{MaxSteps: 50000}, MaxDev: dev, Body: reconnectBody()}}
+}
+
+// notificationsOffBody: a namespace with notifications disabled. A follower is restored from a snapshot and
+// then applies further entries; like every other replica of that namespace it must not store notification
+// batches (C06: replicas that applied the same prefix hold the same state, however they got there).
+func notificationsOffBody() func(s *vsched.Sched) {
+	return func(s *vsched.Sched) {
+		s.Explore(false)
+		env := oxc.NewEnv(s)
+		net := oxc.NewNet()
+		kvf, err := kv.NewPebbleKVFactory(&kv.FactoryOptions{DataDir: filepath.Join(env.Dir, "n2", "db"), CacheSizeMB: 1})
+		if err != nil {
+			s.Fail("harness-setup", err.Error())
+			return
+		}
+		walf := wal.NewWalFactory(&wal.FactoryOptions{BaseWalDir: filepath.Join(env.Dir, "n2", "wal"), Retention: time.Hour, SegmentSize: 64 * 1024, SyncData: true})
+		fc, err := server.NewFollowerController(server.Config{NotificationsRetentionTime: time.Hour}, ns, shard, walf, kvf)
+		if err != nil {
+			s.Fail("harness-setup", err.Error())
+			return
+		}
+		defer func() {
+			_ = fc.Close()
+			_ = walf.Close()
+			_ = kvf.Close()
+		}()
+		net.Peers["n2"] = fc
+		off := &proto.NewTermOptions{EnableNotifications: false}
+		if _, err := fc.NewTerm(&proto.NewTermRequest{Namespace: ns, Shard: shard, Term: 1, Options: off}); err != nil {
+			s.Fail("harness-setup", err.Error())
+			return
+		}
+		donorNotificationsOff = true
+		chunks, err := donorChunks(filepath.Join(env.Dir, "donor"), 2, 1)
+		donorNotificationsOff = false
+		if err != nil {
+			s.Fail("harness-setup", "donor snapshot: "+err.Error())
+			return
+		}
+		ctx, cancel := context.WithCancel(context.Background())
+		defer cancel()
+		s.Explore(true)
+		cl, err := net.SendSnapshot(ctx, "n2", ns, shard, 1)
+		if err != nil {
+			s.Fail("harness-setup", err.Error())
+			return
+		}
+		for _, c := range chunks {
+			if err := cl.Send(c); err != nil {
+				break
+			}
+		}
+		if _, err := cl.CloseAndRecv(); err != nil {
+			s.Fail("harness-setup", "snapshot: "+err.Error())
+			return
+		}
+		s.Settle()
+		stream, err := net.GetReplicateStream(context.Background(), "n2", ns, shard, 1)
+		if err != nil {
+			s.Fail("harness-setup", err.Error())
+			return
+		}
+		vsched.Go(func() {
+			for {
+				if _, err := stream.Recv(); err != nil {
+					return
+				}
+			}
+		})
+		for o := int64(3); o <= 4; o++ {
+			if err := stream.Send(&proto.Append{Term: 1, Entry: entry(1, o), CommitOffset: o}); err != nil {
+				s.Fail("harness-setup", err.Error())
+				return
+			}
+		}
+		s.Settle()
+		s.Explore(false)
+		db := server.VerifFollowerDB(fc)
+		c, _ := db.ReadCommitOffset()
+		var batches []string
+		for _, l := range oxh.DumpDB(db, oxh.DumpOpts{SkipTerm: true}) {
+			if strings.Contains(l, "__oxia/notifications/") {
+				batches = append(batches, l)
+			}
+		}
+		if c == 4 && len(batches) > 0 {
+			s.Fail("notification-batches-in-namespace-without-notifications", fmt.Sprintf("notifications are disabled for the namespace; a follower restored from a snapshot (offsets 0..2) that then applied offsets 3..4 stores %d notification batch(es), which no other replica of the shard has: %v", len(batches), batches))
+		}
+		s.Data = fmt.Sprintf("commit=%d batches=%d", c, len(batches))
+	}
+}
+
+// NotificationsOffScenarios: see notificationsOffBody (C06).
+func NotificationsOffScenarios(tier string) []sched.Scenario {
+	return []sched.Scenario{{Name: "snapshot-restored-follower-in-namespace-without-notifications", Cfg: vsched.Config{MaxSteps: 50000}, MaxDev: 1, Body: notificationsOffBody()}}
 }
